@@ -7,7 +7,10 @@ TB = ("Trusted base: the executable reference model and format interpreters unde
       "list/stack/convert/rate model, ref/{osu,sm,bms,qua,ojn}.py), CPython, pandas/numpy/PyYAML as installed. Sampling: a clean "
       "batch is evidence about the explored sessions, not a proof.")
 
+FILE_TECH = "session simulation at the stream seams: generated files and history-made charts through read_file/write_file on a simulated file system (real io/codecs layers over a stub device: tiny buffers, short counts, platform defaults, stale destination, EIO/ENOSPC/close errors placed inside the op, retry after failure), judged by an independent reference interpreter of the format; write/read generation chains"
 CLAIMED = {
+ "C01": (FILE_TECH,
+         "Generated v14 mania texts (key counts 1..18, x on both edges of a column, negative/large times, every hitsound field, values with ':' and non-ASCII, CRLF/LF) are installed in the simulated file system and read; charts built through histories are written, read back and written again. Whenever read_file/write_file returns normally the result must equal the reference interpretation of the bytes (reads exact, writes < 1 ms, later generations identical to the first), whatever the device did (1-byte buffers, short counts, cp1252/cp932 platform defaults, stale longer file); injected EIO/ENOSPC/close errors may only make the call raise, leave every chart untouched, and the retried call must succeed.", "§5 C01"),
  "C16": ("model-based session simulation: seeded op histories over aliased list handles, per-step refinement against a plain-sequence model",
          "Every list operation in a seeded session (constructors, len/index/slice/mask/iterate, first/last offset, sorted, append in four operand forms, after/before/between with all flags and hold head/tail variants) is compared step by step with the same operation on a plain Python sequence of the rows, on list states that only histories produce (gap/permuted/duplicate labels, views, int/float/object dtypes), for all 28 list classes.", "§5 C16"),
  "C14": ("deterministic session simulation with whole-world frame invariants (I1/I2) over alias classes",
